@@ -23,6 +23,12 @@ let fst = function
 let snd = function
 | (_, y) -> y
 
+(** val length : 'a1 list -> nat **)
+
+let rec length = function
+| [] -> O
+| _ :: l' -> S (length l')
+
 (** val app : 'a1 list -> 'a1 list -> 'a1 list **)
 
 let rec app l m =
@@ -86,6 +92,12 @@ let eqb b1 b2 =
 
 module Nat =
  struct
+  (** val pred : nat -> nat **)
+
+  let pred n0 = match n0 with
+  | O -> n0
+  | S u -> u
+
   (** val eqb : nat -> nat -> bool **)
 
   let rec eqb n0 m =
@@ -110,6 +122,31 @@ module Nat =
 
   let ltb n0 m =
     leb (S n0) m
+
+  (** val min : nat -> nat -> nat **)
+
+  let rec min n0 m =
+    match n0 with
+    | O -> O
+    | S n' -> (match m with
+               | O -> O
+               | S m' -> S (min n' m'))
+
+  (** val divmod : nat -> nat -> nat -> nat -> nat * nat **)
+
+  let rec divmod x y q0 u =
+    match x with
+    | O -> (q0, u)
+    | S x' ->
+      (match u with
+       | O -> divmod x' y (S q0) y
+       | S u' -> divmod x' y q0 u')
+
+  (** val div : nat -> nat -> nat **)
+
+  let div x y = match y with
+  | O -> y
+  | S y' -> fst (divmod x y' O y')
  end
 
 module Pos =
@@ -298,6 +335,20 @@ module Coq_Pos =
   let compare =
     compare_cont Eq
 
+  (** val eqb : positive -> positive -> bool **)
+
+  let rec eqb p q0 =
+    match p with
+    | XI p0 -> (match q0 with
+                | XI q1 -> eqb p0 q1
+                | _ -> false)
+    | XO p0 -> (match q0 with
+                | XO q1 -> eqb p0 q1
+                | _ -> false)
+    | XH -> (match q0 with
+             | XH -> true
+             | _ -> false)
+
   (** val ggcdn :
       nat -> positive -> positive -> positive * (positive * positive) **)
 
@@ -380,6 +431,12 @@ module N =
   let to_nat = function
   | N0 -> O
   | Npos p -> Coq_Pos.to_nat p
+
+  (** val of_nat : nat -> n **)
+
+  let of_nat = function
+  | O -> N0
+  | S n' -> Npos (Coq_Pos.of_succ_nat n')
  end
 
 module Z =
@@ -518,11 +575,31 @@ module Z =
     | Lt -> true
     | _ -> false
 
+  (** val eqb : z -> z -> bool **)
+
+  let eqb x y =
+    match x with
+    | Z0 -> (match y with
+             | Z0 -> true
+             | _ -> false)
+    | Zpos p -> (match y with
+                 | Zpos q0 -> Coq_Pos.eqb p q0
+                 | _ -> false)
+    | Zneg p -> (match y with
+                 | Zneg q0 -> Coq_Pos.eqb p q0
+                 | _ -> false)
+
   (** val abs : z -> z **)
 
   let abs = function
   | Zneg p -> Zpos p
   | x -> x
+
+  (** val to_nat : z -> nat **)
+
+  let to_nat = function
+  | Zpos p -> Coq_Pos.to_nat p
+  | _ -> O
 
   (** val of_nat : nat -> z **)
 
@@ -582,6 +659,11 @@ module Z =
 
   let div a b =
     let (q0, _) = div_eucl a b in q0
+
+  (** val modulo : z -> z -> z **)
+
+  let modulo a b =
+    let (_, r) = div_eucl a b in r
 
   (** val even : z -> bool **)
 
@@ -653,6 +735,18 @@ let rec map f = function
 | [] -> []
 | a :: t -> (f a) :: (map f t)
 
+(** val existsb : ('a1 -> bool) -> 'a1 list -> bool **)
+
+let rec existsb f = function
+| [] -> false
+| a :: l0 -> (||) (f a) (existsb f l0)
+
+(** val forallb : ('a1 -> bool) -> 'a1 list -> bool **)
+
+let rec forallb f = function
+| [] -> true
+| a :: l0 -> (&&) (f a) (forallb f l0)
+
 (** val filter : ('a1 -> bool) -> 'a1 list -> 'a1 list **)
 
 let rec filter f = function
@@ -661,6 +755,22 @@ let rec filter f = function
 
 type ascii =
 | Ascii of bool * bool * bool * bool * bool * bool * bool * bool
+
+(** val zero : ascii **)
+
+let zero =
+  Ascii (false, false, false, false, false, false, false, false)
+
+(** val one : ascii **)
+
+let one =
+  Ascii (true, false, false, false, false, false, false, false)
+
+(** val shift : bool -> ascii -> ascii **)
+
+let shift c = function
+| Ascii (a1, a2, a3, a4, a5, a6, a7, _) ->
+  Ascii (c, a1, a2, a3, a4, a5, a6, a7)
 
 (** val ascii_dec : ascii -> ascii -> bool **)
 
@@ -701,6 +811,30 @@ let eqb0 a b =
      else false
   then eqb a7 b7
   else false
+
+(** val ascii_of_pos : positive -> ascii **)
+
+let ascii_of_pos =
+  let rec loop n0 p =
+    match n0 with
+    | O -> zero
+    | S n' ->
+      (match p with
+       | XI p' -> shift true (loop n' p')
+       | XO p' -> shift false (loop n' p')
+       | XH -> one)
+  in loop (S (S (S (S (S (S (S (S O))))))))
+
+(** val ascii_of_N : n -> ascii **)
+
+let ascii_of_N = function
+| N0 -> zero
+| Npos p -> ascii_of_pos p
+
+(** val ascii_of_nat : nat -> ascii **)
+
+let ascii_of_nat a =
+  ascii_of_N (N.of_nat a)
 
 (** val n_of_digits : bool list -> n **)
 
@@ -745,11 +879,11 @@ let rec append s1 s2 =
   | EmptyString -> s2
   | String (c, s1') -> String (c, (append s1' s2))
 
-(** val length : string -> nat **)
+(** val length0 : string -> nat **)
 
-let rec length = function
+let rec length0 = function
 | EmptyString -> O
-| String (_, s') -> S (length s')
+| String (_, s') -> S (length0 s')
 
 (** val get : nat -> string -> ascii option **)
 
@@ -853,10 +987,20 @@ let qred q0 =
 let qabs x =
   let { qnum = n0; qden = d } = x in { qnum = (Z.abs n0); qden = d }
 
+(** val qfloor : q -> z **)
+
+let qfloor x =
+  let { qnum = n0; qden = d } = x in Z.div n0 (Zpos d)
+
 type v =
 | VZ of z
 | VS of string
 | VL of v list
+
+(** val vB : bool -> v **)
+
+let vB b =
+  VZ (if b then Zpos XH else Z0)
 
 (** val vQ : q -> v **)
 
@@ -948,10 +1092,20 @@ let qltb a b =
 let qleb =
   qle_bool
 
+(** val qeqb : q -> q -> bool **)
+
+let qeqb =
+  qeq_bool
+
 (** val qsqr : q -> q **)
 
 let qsqr a =
   qmult a a
+
+(** val sp : ascii **)
+
+let sp =
+  Ascii (false, false, false, false, false, true, false, false)
 
 (** val nl : ascii **)
 
@@ -1030,6 +1184,23 @@ let rec repeat_char c = function
 | O -> EmptyString
 | S k -> String (c, (repeat_char c k))
 
+(** val ljust : nat -> string -> string **)
+
+let ljust w s =
+  append s (repeat_char sp (sub w (length0 s)))
+
+(** val rjust : nat -> string -> string **)
+
+let rjust w s =
+  append (repeat_char sp (sub w (length0 s))) s
+
+(** val center : nat -> string -> string **)
+
+let center w s =
+  let pad = sub w (length0 s) in
+  let l = Nat.div pad (S (S O)) in
+  append (repeat_char sp l) (append s (repeat_char sp (sub pad l)))
+
 (** val startswith : string -> string -> bool **)
 
 let startswith =
@@ -1097,13 +1268,43 @@ let rec count_sub_aux fuel p s =
      | EmptyString -> O
      | String (_, t) ->
        if prefix p s
-       then S (count_sub_aux f p (substring (length p) (length s) s))
+       then S (count_sub_aux f p (substring (length0 p) (length0 s) s))
        else count_sub_aux f p t)
 
 (** val count_sub : string -> string -> nat **)
 
 let count_sub p s =
-  count_sub_aux (S (length s)) p s
+  count_sub_aux (S (length0 s)) p s
+
+(** val digits_pos_aux : nat -> z -> string -> string **)
+
+let rec digits_pos_aux fuel n0 acc =
+  match fuel with
+  | O -> acc
+  | S f ->
+    let acc' = String
+      ((ascii_of_nat
+         (add (Z.to_nat (Z.modulo n0 (Zpos (XO (XI (XO XH)))))) (S (S (S (S
+           (S (S (S (S (S (S (S (S (S (S (S (S (S (S (S (S (S (S (S (S (S (S
+           (S (S (S (S (S (S (S (S (S (S (S (S (S (S (S (S (S (S (S (S (S (S
+           O)))))))))))))))))))))))))))))))))))))))))))))))))), acc)
+    in
+    if Z.ltb n0 (Zpos (XO (XI (XO XH))))
+    then acc'
+    else digits_pos_aux f (Z.div n0 (Zpos (XO (XI (XO XH))))) acc'
+
+(** val digits : z -> string **)
+
+let digits n0 =
+  digits_pos_aux (S (Z.to_nat (Z.log2 n0))) n0 EmptyString
+
+(** val str_of_Z : z -> string **)
+
+let str_of_Z n0 =
+  if Z.ltb n0 Z0
+  then String ((Ascii (true, false, true, true, false, true, false, false)),
+         (digits (Z.opp n0)))
+  else digits n0
 
 (** val all_digits : string -> bool **)
 
@@ -1263,10 +1464,42 @@ let parse_float s0 =
   if (&&) ((&&) (all_digits ip) (all_digits fpart))
        ((||) (str_nonempty ip) (str_nonempty fpart))
   then let n0 = digits_val Z0 (append ip fpart) in
-       let q0 = qred { qnum = n0; qden = (Z.to_pos (pow10 (length fpart))) }
+       let q0 = qred { qnum = n0; qden = (Z.to_pos (pow10 (length0 fpart))) }
        in
        NumOk (b64 (if neg then qred (qopp q0) else q0))
   else if exotic_numeral s then NumOutOfModel else NumBad
+
+(** val pad_left_zeros : nat -> string -> string **)
+
+let pad_left_zeros w s =
+  append
+    (repeat_char (Ascii (false, false, false, false, true, true, false,
+      false)) (sub w (length0 s))) s
+
+(** val fmt_fixed_body : nat -> q -> string **)
+
+let fmt_fixed_body p q0 =
+  let n0 = round_half_even (qmult (qabs q0) (inject_Z (pow10 p))) in
+  let ip = Z.div n0 (pow10 p) in
+  let fp = Z.modulo n0 (pow10 p) in
+  let sgn0 =
+    if qltb q0 { qnum = Z0; qden = XH }
+    then String ((Ascii (true, false, true, true, false, true, false,
+           false)), EmptyString)
+    else EmptyString
+  in
+  (match p with
+   | O -> append sgn0 (digits ip)
+   | S _ ->
+     append sgn0
+       (append (digits ip)
+         (append (String ((Ascii (false, true, true, true, false, true,
+           false, false)), EmptyString)) (pad_left_zeros p (digits fp)))))
+
+(** val fmt_fixed : nat -> nat -> q -> string **)
+
+let fmt_fixed w p q0 =
+  rjust w (fmt_fixed_body p q0)
 
 (** val round_dec : nat -> q -> q **)
 
@@ -1287,6 +1520,18 @@ type blank_default =
 | DConst of q
 | DChainFromSegID
 | DElementGuess
+
+type align =
+| ARight
+| ALeft
+| ACenter
+
+type piece =
+| PLit of string
+| PField of nat * align * nat
+| PFixed of nat * align * nat * nat
+| PAtomName
+| PXyz of nat
 
 type val0 =
 | VInt of z
@@ -1995,7 +2240,7 @@ let blank_defaults_src =
 (** val linelength_src : string -> string res **)
 
 let linelength_src pdb_line_1 =
-  let linelen_2 = length pdb_line_1 in
+  let linelen_2 = length0 pdb_line_1 in
   if Nat.ltb linelen_2 (S (S (S (S (S (S (S (S (S (S (S (S (S (S (S (S (S (S
        (S (S (S (S (S (S (S (S (S (S (S (S (S (S (S (S (S (S (S (S (S (S (S
        (S (S (S (S (S (S (S (S (S (S (S (S (S (S (S (S (S (S (S (S (S (S (S
@@ -2533,7 +2778,7 @@ let pad80 line =
         (S (S (S (S (S (S (S (S (S (S (S (S (S (S (S (S (S (S (S (S (S (S (S
         (S (S (S (S (S (S (S (S (S (S (S (S
         O))))))))))))))))))))))))))))))))))))))))))))))))))))))))))))))))))))))))))))))))
-        (length line)))
+        (length0 line)))
 
 (** val columns : nat -> nat -> string -> string **)
 
@@ -2736,7 +2981,7 @@ let spec_row line =
        (S (S (S (S (S (S (S (S (S (S (S (S (S (S (S (S (S (S (S (S (S (S (S
        (S (S (S (S (S (S (S (S (S (S (S (S (S
        O))))))))))))))))))))))))))))))))))))))))))))))))))))))))))))))))))))))))))))))))
-       (length line)
+       (length0 line)
   then Err (String ((Ascii (false, true, true, false, true, false, true,
          false)), (String ((Ascii (true, false, false, false, false, true,
          true, false)), (String ((Ascii (false, false, true, true, false,
@@ -2784,6 +3029,57 @@ let vval = function
 | VNull ->
   VL ((VS (String ((Ascii (false, true, true, true, false, false, true,
     false)), EmptyString))) :: [])
+
+(** val val_of_V : v -> val0 **)
+
+let val_of_V = function
+| VL l ->
+  (match l with
+   | [] -> VNull
+   | v1 :: l0 ->
+     (match v1 with
+      | VS tag ->
+        (match l0 with
+         | [] ->
+           if eqb1 tag (String ((Ascii (false, true, false, false, false,
+                false, true, false)), EmptyString))
+           then VBlob
+           else VNull
+         | v2 :: l1 ->
+           (match v2 with
+            | VZ n0 ->
+              (match l1 with
+               | [] ->
+                 if eqb1 tag (String ((Ascii (true, false, false, true,
+                      false, false, true, false)), EmptyString))
+                 then VInt n0
+                 else VNull
+               | v3 :: l2 ->
+                 (match v3 with
+                  | VZ z0 ->
+                    (match z0 with
+                     | Zpos d ->
+                       (match l2 with
+                        | [] ->
+                          if eqb1 tag (String ((Ascii (false, true, false,
+                               false, true, false, true, false)),
+                               EmptyString))
+                          then VReal { qnum = n0; qden = d }
+                          else VNull
+                        | _ :: _ -> VNull)
+                     | _ -> VNull)
+                  | _ -> VNull))
+            | VS s ->
+              (match l1 with
+               | [] ->
+                 if eqb1 tag (String ((Ascii (false, false, true, false,
+                      true, false, true, false)), EmptyString))
+                 then VText s
+                 else VNull
+               | _ :: _ -> VNull)
+            | VL _ -> VNull))
+      | _ -> VNull))
+| _ -> VNull
 
 (** val vrow : row -> v **)
 
@@ -2997,6 +3293,964 @@ let run_parse cmd a =
                                  (fun s -> Ok (VS s))))
                       else None
 
+(** val format_xyz_src : q -> string res **)
+
+let format_xyz_src i_1 =
+  if (||)
+       (qleb
+         (qminus { qnum = (Zpos (XO (XO (XO (XO (XO (XO (XO (XO (XI (XO (XO
+           (XO (XO (XI (XI (XI (XI (XO (XI (XO (XI (XI (XI (XI (XI (XO
+           XH))))))))))))))))))))))))))); qden = XH } { qnum = (Zpos XH);
+           qden = (XO XH) }) i_1)
+       (qleb i_1
+         (qplus
+           (qopp { qnum = (Zpos (XO (XO (XO (XO (XO (XO (XO (XI (XO (XI (XI
+             (XO (XI (XO (XO (XI (XO (XO (XO (XI (XI (XO (XO
+             XH)))))))))))))))))))))))); qden = XH }) { qnum = (Zpos XH);
+           qden = (XO XH) }))
+  then Err (String ((Ascii (false, true, true, false, true, false, true,
+         false)), (String ((Ascii (true, false, false, false, false, true,
+         true, false)), (String ((Ascii (false, false, true, true, false,
+         true, true, false)), (String ((Ascii (true, false, true, false,
+         true, true, true, false)), (String ((Ascii (true, false, true,
+         false, false, true, true, false)), (String ((Ascii (true, false,
+         true, false, false, false, true, false)), (String ((Ascii (false,
+         true, false, false, true, true, true, false)), (String ((Ascii
+         (false, true, false, false, true, true, true, false)), (String
+         ((Ascii (true, true, true, true, false, true, true, false)), (String
+         ((Ascii (false, true, false, false, true, true, true, false)),
+         EmptyString))))))))))))))))))))
+  else if (||)
+            (qleb
+              (qminus { qnum = (Zpos (XO (XO (XO (XO (XO (XO (XI (XO (XO (XI
+                (XO (XO (XO (XO (XI (XO (XI (XI (XI XH))))))))))))))))))));
+                qden = XH } { qnum = (Zpos XH); qden = (XO XH) }) i_1)
+            (qleb i_1
+              (qplus
+                (qopp { qnum = (Zpos (XO (XO (XO (XO (XO (XI (XO (XI (XO (XI
+                  (XI (XO (XO (XO (XO (XI XH))))))))))))))))); qden = XH })
+                { qnum = (Zpos XH); qden = (XO XH) }))
+       then let i_2 = fmt_fixed (S (S (S (S (S (S (S (S O)))))))) O i_1 in
+            Ok i_2
+       else if (||)
+                 (qleb
+                   (qminus { qnum = (Zpos (XO (XO (XO (XO (XO (XI (XO (XI (XO
+                     (XI (XI (XO (XO (XO (XO (XI XH))))))))))))))))); qden =
+                     XH } { qnum = (Zpos XH); qden = (XO XH) }) i_1)
+                 (qleb i_1
+                   (qplus
+                     (qopp { qnum = (Zpos (XO (XO (XO (XO (XI (XO (XO (XO (XI
+                       (XI (XI (XO (XO XH)))))))))))))); qden = XH })
+                     { qnum = (Zpos XH); qden = (XO XH) }))
+            then let i_3 =
+                   fmt_fixed (S (S (S (S (S (S (S (S O)))))))) (S O) i_1
+                 in
+                 Ok i_3
+            else if (||)
+                      (qleb
+                        (qminus { qnum = (Zpos (XO (XO (XO (XO (XI (XO (XO
+                          (XO (XI (XI (XI (XO (XO XH)))))))))))))); qden =
+                          XH } { qnum = (Zpos XH); qden = (XO XH) }) i_1)
+                      (qleb i_1
+                        (qplus
+                          (qopp { qnum = (Zpos (XO (XO (XO (XI (XO (XI (XI
+                            (XI (XI XH)))))))))); qden = XH }) { qnum = (Zpos
+                          XH); qden = (XO XH) }))
+                 then let i_4 =
+                        fmt_fixed (S (S (S (S (S (S (S (S O)))))))) (S (S O))
+                          i_1
+                      in
+                      Ok i_4
+                 else let i_5 =
+                        fmt_fixed (S (S (S (S (S (S (S (S O)))))))) (S (S (S
+                          O))) i_1
+                      in
+                      Ok i_5
+
+(** val format_atomname_src : string -> string -> string res **)
+
+let format_atomname_src data_name_1 data_element_2 =
+  let lname_4 = length0 data_name_1 in
+  if (||) (Nat.eqb lname_4 (S O)) (Nat.eqb lname_4 (S (S (S (S O)))))
+  then let name_5 = center (S (S (S (S O)))) data_name_1 in Ok name_5
+  else if Nat.eqb lname_4 (S (S O))
+       then if eqb1 data_name_1 data_element_2
+            then let name_6 = ljust (S (S (S (S O)))) data_name_1 in Ok name_6
+            else let name_7 = center (S (S (S (S O)))) data_name_1 in
+                 Ok name_7
+       else if is_substring (char_at O data_name_1) (String ((Ascii (false,
+                 false, false, false, true, true, false, false)), (String
+                 ((Ascii (true, false, false, false, true, true, false,
+                 false)), (String ((Ascii (false, true, false, false, true,
+                 true, false, false)), (String ((Ascii (true, true, false,
+                 false, true, true, false, false)), (String ((Ascii (false,
+                 false, true, false, true, true, false, false)), (String
+                 ((Ascii (true, false, true, false, true, true, false,
+                 false)), (String ((Ascii (false, true, true, false, true,
+                 true, false, false)), (String ((Ascii (true, true, true,
+                 false, true, true, false, false)), (String ((Ascii (false,
+                 false, false, true, true, true, false, false)), (String
+                 ((Ascii (true, false, false, true, true, true, false,
+                 false)), EmptyString))))))))))))))))))))
+            then let name_8 = ljust (S (S (S (S O)))) data_name_1 in Ok name_8
+            else let name_9 = rjust (S (S (S (S O)))) data_name_1 in Ok name_9
+
+(** val export_layout_src : piece list **)
+
+let export_layout_src =
+  (PLit (String ((Ascii (true, false, false, false, false, false, true,
+    false)), (String ((Ascii (false, false, true, false, true, false, true,
+    false)), (String ((Ascii (true, true, true, true, false, false, true,
+    false)), (String ((Ascii (true, false, true, true, false, false, true,
+    false)), (String ((Ascii (false, false, false, false, false, true, false,
+    false)), (String ((Ascii (false, false, false, false, false, true, false,
+    false)), EmptyString))))))))))))) :: ((PField (O, ARight, (S (S (S (S (S
+    O))))))) :: ((PLit (String ((Ascii (false, false, false, false, false,
+    true, false, false)), EmptyString))) :: (PAtomName :: ((PField ((S (S
+    O)), ARight, (S O))) :: ((PField ((S (S (S O))), ARight, (S (S (S
+    O))))) :: ((PLit (String ((Ascii (false, false, false, false, false,
+    true, false, false)), EmptyString))) :: ((PField ((S (S (S (S O)))),
+    ARight, (S O))) :: ((PField ((S (S (S (S (S O))))), ARight, (S (S (S (S
+    O)))))) :: ((PField ((S (S (S (S (S (S O)))))), ARight, (S O))) :: ((PLit
+    (String ((Ascii (false, false, false, false, false, true, false, false)),
+    (String ((Ascii (false, false, false, false, false, true, false, false)),
+    (String ((Ascii (false, false, false, false, false, true, false, false)),
+    EmptyString))))))) :: ((PXyz (S (S (S (S (S (S (S O)))))))) :: ((PXyz (S
+    (S (S (S (S (S (S (S O))))))))) :: ((PXyz (S (S (S (S (S (S (S (S (S
+    O)))))))))) :: ((PFixed ((S (S (S (S (S (S (S (S (S (S O)))))))))),
+    ARight, (S (S (S (S (S (S O)))))), (S (S O)))) :: ((PFixed ((S (S (S (S
+    (S (S (S (S (S (S (S O))))))))))), ARight, (S (S (S (S (S (S O)))))), (S
+    (S O)))) :: ((PLit (String ((Ascii (false, false, false, false, false,
+    true, false, false)), (String ((Ascii (false, false, false, false, false,
+    true, false, false)), (String ((Ascii (false, false, false, false, false,
+    true, false, false)), (String ((Ascii (false, false, false, false, false,
+    true, false, false)), (String ((Ascii (false, false, false, false, false,
+    true, false, false)), (String ((Ascii (false, false, false, false, false,
+    true, false, false)), (String ((Ascii (false, false, false, false, false,
+    true, false, false)), (String ((Ascii (false, false, false, false, false,
+    true, false, false)), (String ((Ascii (false, false, false, false, false,
+    true, false, false)), (String ((Ascii (false, false, false, false, false,
+    true, false, false)), EmptyString))))))))))))))))))))) :: ((PField ((S (S
+    (S (S (S (S (S (S (S (S (S (S O)))))))))))), ARight, (S (S
+    O)))) :: ((PLit (String ((Ascii (false, false, false, false, false, true,
+    false, false)), (String ((Ascii (false, false, false, false, false, true,
+    false, false)), EmptyString))))) :: []))))))))))))))))))
+
+(** val justify : align -> nat -> string -> string **)
+
+let justify a w s =
+  match a with
+  | ARight -> rjust w s
+  | ALeft -> ljust w s
+  | ACenter -> center w s
+
+(** val render_plain : val0 -> string res **)
+
+let render_plain = function
+| VInt z0 -> Ok (str_of_Z z0)
+| VText s -> Ok s
+| _ ->
+  Err (String ((Ascii (true, true, true, true, false, false, true, false)),
+    (String ((Ascii (true, false, true, false, true, true, true, false)),
+    (String ((Ascii (false, false, true, false, true, true, true, false)),
+    (String ((Ascii (true, true, true, true, false, false, true, false)),
+    (String ((Ascii (false, true, true, false, false, true, true, false)),
+    (String ((Ascii (true, false, true, true, false, false, true, false)),
+    (String ((Ascii (true, true, true, true, false, true, true, false)),
+    (String ((Ascii (false, false, true, false, false, true, true, false)),
+    (String ((Ascii (true, false, true, false, false, true, true, false)),
+    (String ((Ascii (false, false, true, true, false, true, true, false)),
+    EmptyString))))))))))))))))))))
+
+(** val num_of : val0 -> q res **)
+
+let num_of = function
+| VInt z0 -> Ok (inject_Z z0)
+| VReal q0 -> Ok q0
+| VText _ ->
+  Err (String ((Ascii (false, true, true, false, true, false, true, false)),
+    (String ((Ascii (true, false, false, false, false, true, true, false)),
+    (String ((Ascii (false, false, true, true, false, true, true, false)),
+    (String ((Ascii (true, false, true, false, true, true, true, false)),
+    (String ((Ascii (true, false, true, false, false, true, true, false)),
+    (String ((Ascii (true, false, true, false, false, false, true, false)),
+    (String ((Ascii (false, true, false, false, true, true, true, false)),
+    (String ((Ascii (false, true, false, false, true, true, true, false)),
+    (String ((Ascii (true, true, true, true, false, true, true, false)),
+    (String ((Ascii (false, true, false, false, true, true, true, false)),
+    EmptyString))))))))))))))))))))
+| _ ->
+  Err (String ((Ascii (true, true, true, true, false, false, true, false)),
+    (String ((Ascii (true, false, true, false, true, true, true, false)),
+    (String ((Ascii (false, false, true, false, true, true, true, false)),
+    (String ((Ascii (true, true, true, true, false, false, true, false)),
+    (String ((Ascii (false, true, true, false, false, true, true, false)),
+    (String ((Ascii (true, false, true, true, false, false, true, false)),
+    (String ((Ascii (true, true, true, true, false, true, true, false)),
+    (String ((Ascii (false, false, true, false, false, true, true, false)),
+    (String ((Ascii (true, false, true, false, false, true, true, false)),
+    (String ((Ascii (false, false, true, true, false, true, true, false)),
+    EmptyString))))))))))))))))))))
+
+(** val text_of : val0 -> string res **)
+
+let text_of = function
+| VText s -> Ok s
+| _ ->
+  Err (String ((Ascii (true, true, true, true, false, false, true, false)),
+    (String ((Ascii (true, false, true, false, true, true, true, false)),
+    (String ((Ascii (false, false, true, false, true, true, true, false)),
+    (String ((Ascii (true, true, true, true, false, false, true, false)),
+    (String ((Ascii (false, true, true, false, false, true, true, false)),
+    (String ((Ascii (true, false, true, true, false, false, true, false)),
+    (String ((Ascii (true, true, true, true, false, true, true, false)),
+    (String ((Ascii (false, false, true, false, false, true, true, false)),
+    (String ((Ascii (true, false, true, false, false, true, true, false)),
+    (String ((Ascii (false, false, true, true, false, true, true, false)),
+    EmptyString))))))))))))))))))))
+
+(** val render_piece : row -> piece -> string res **)
+
+let render_piece d = function
+| PLit s -> Ok s
+| PField (i, a, w) ->
+  bind (render_plain (nth i d VNull)) (fun s -> Ok (justify a w s))
+| PFixed (i, a, w, pr) ->
+  (match a with
+   | ARight ->
+     bind (num_of (nth i d VNull)) (fun q0 -> Ok (fmt_fixed w pr q0))
+   | _ ->
+     Err (String ((Ascii (true, true, true, true, false, false, true,
+       false)), (String ((Ascii (true, false, true, false, true, true, true,
+       false)), (String ((Ascii (false, false, true, false, true, true, true,
+       false)), (String ((Ascii (true, true, true, true, false, false, true,
+       false)), (String ((Ascii (false, true, true, false, false, true, true,
+       false)), (String ((Ascii (true, false, true, true, false, false, true,
+       false)), (String ((Ascii (true, true, true, true, false, true, true,
+       false)), (String ((Ascii (false, false, true, false, false, true,
+       true, false)), (String ((Ascii (true, false, true, false, false, true,
+       true, false)), (String ((Ascii (false, false, true, true, false, true,
+       true, false)), EmptyString)))))))))))))))))))))
+| PAtomName ->
+  bind (text_of (nth (S O) d VNull)) (fun nm ->
+    bind
+      (text_of
+        (nth (S (S (S (S (S (S (S (S (S (S (S (S O)))))))))))) d VNull))
+      (fun el -> format_atomname_src nm el))
+| PXyz i ->
+  (match nth i d VNull with
+   | VInt z0 -> format_xyz_src (inject_Z z0)
+   | VReal q0 -> format_xyz_src q0
+   | _ ->
+     Err (String ((Ascii (true, true, true, true, false, false, true,
+       false)), (String ((Ascii (true, false, true, false, true, true, true,
+       false)), (String ((Ascii (false, false, true, false, true, true, true,
+       false)), (String ((Ascii (true, true, true, true, false, false, true,
+       false)), (String ((Ascii (false, true, true, false, false, true, true,
+       false)), (String ((Ascii (true, false, true, true, false, false, true,
+       false)), (String ((Ascii (true, true, true, true, false, true, true,
+       false)), (String ((Ascii (false, false, true, false, false, true,
+       true, false)), (String ((Ascii (true, false, true, false, false, true,
+       true, false)), (String ((Ascii (false, false, true, true, false, true,
+       true, false)), EmptyString)))))))))))))))))))))
+
+(** val render_pieces : row -> piece list -> string res **)
+
+let rec render_pieces d = function
+| [] -> Ok EmptyString
+| p :: t ->
+  bind (render_piece d p) (fun s ->
+    bind (render_pieces d t) (fun r -> Ok (append s r)))
+
+(** val line_of_row : row -> string res **)
+
+let line_of_row d =
+  render_pieces d export_layout_src
+
+(** val clean : string -> bool **)
+
+let clean s =
+  eqb1 (trim s) s
+
+(** val fits_int : z -> z -> val0 -> bool **)
+
+let fits_int lo hi = function
+| VInt z0 -> (&&) (Z.leb lo z0) (Z.leb z0 hi)
+| _ -> false
+
+(** val fits_text : nat -> nat -> val0 -> bool **)
+
+let fits_text minlen maxlen = function
+| VText s ->
+  (&&) ((&&) (Nat.leb minlen (length0 s)) (Nat.leb (length0 s) maxlen))
+    (clean s)
+| _ -> false
+
+(** val real_of : val0 -> q option **)
+
+let real_of = function
+| VInt z0 -> Some (inject_Z z0)
+| VReal q0 -> Some q0
+| _ -> None
+
+(** val fits_real : q -> q -> val0 -> bool **)
+
+let fits_real lo hi v0 =
+  match real_of v0 with
+  | Some q0 -> (&&) (qleb lo q0) (qleb q0 hi)
+  | None -> false
+
+(** val coord_lo : q **)
+
+let coord_lo =
+  qplus
+    (qopp { qnum = (Zpos (XO (XO (XO (XO (XO (XO (XO (XI (XO (XI (XI (XO (XI
+      (XO (XO (XI (XO (XO (XO (XI (XI (XO (XO XH))))))))))))))))))))))));
+      qden = XH }) { qnum = (Zpos XH); qden = (XO XH) }
+
+(** val coord_hi : q **)
+
+let coord_hi =
+  qminus { qnum = (Zpos (XO (XO (XO (XO (XO (XO (XO (XO (XI (XO (XO (XO (XO
+    (XI (XI (XI (XI (XO (XI (XO (XI (XI (XI (XI (XI (XO
+    XH))))))))))))))))))))))))))); qden = XH } { qnum = (Zpos XH); qden = (XO
+    XH) }
+
+(** val coord_in_range : val0 -> bool **)
+
+let coord_in_range v0 =
+  match real_of v0 with
+  | Some q0 -> (&&) (qltb coord_lo q0) (qltb q0 coord_hi)
+  | None -> false
+
+(** val fits : row -> bool **)
+
+let fits d =
+  (&&)
+    ((&&)
+      ((&&)
+        ((&&)
+          ((&&)
+            ((&&)
+              ((&&)
+                ((&&)
+                  ((&&)
+                    ((&&)
+                      ((&&)
+                        ((&&)
+                          (fits_int (Zneg (XI (XI (XI (XI (XO (XO (XO (XO (XI
+                            (XI (XI (XO (XO XH)))))))))))))) (Zpos (XI (XI
+                            (XI (XI (XI (XO (XO (XI (XO (XI (XI (XO (XO (XO
+                            (XO (XI XH))))))))))))))))) (nth O d VNull))
+                          (fits_text (S O) (S (S (S (S O))))
+                            (nth (S O) d VNull)))
+                        (fits_text O (S O) (nth (S (S O)) d VNull)))
+                      (fits_text (S O) (S (S (S O)))
+                        (nth (S (S (S O))) d VNull)))
+                    (fits_text O (S O) (nth (S (S (S (S O)))) d VNull)))
+                  (fits_int (Zneg (XI (XI (XI (XO (XO (XI (XI (XI (XI
+                    XH)))))))))) (Zpos (XI (XI (XI (XI (XO (XO (XO (XO (XI
+                    (XI (XI (XO (XO XH))))))))))))))
+                    (nth (S (S (S (S (S O))))) d VNull)))
+                (fits_text O (S O) (nth (S (S (S (S (S (S O)))))) d VNull)))
+              (coord_in_range (nth (S (S (S (S (S (S (S O))))))) d VNull)))
+            (coord_in_range (nth (S (S (S (S (S (S (S (S O)))))))) d VNull)))
+          (coord_in_range (nth (S (S (S (S (S (S (S (S (S O))))))))) d VNull)))
+        (fits_real
+          (qopp { qnum = (Zpos (XI (XI (XI (XI (XO (XO (XO (XO (XI (XI (XI
+            (XO (XO XH)))))))))))))); qden = (XO (XO (XI (XO (XO (XI
+            XH)))))) }) { qnum = (Zpos (XI (XI (XI (XI (XI (XO (XO (XI (XO
+          (XI (XI (XO (XO (XO (XO (XI XH))))))))))))))))); qden = (XO (XO (XI
+          (XO (XO (XI XH)))))) }
+          (nth (S (S (S (S (S (S (S (S (S (S O)))))))))) d VNull)))
+      (fits_real
+        (qopp { qnum = (Zpos (XI (XI (XI (XI (XO (XO (XO (XO (XI (XI (XI (XO
+          (XO XH)))))))))))))); qden = (XO (XO (XI (XO (XO (XI XH)))))) })
+        { qnum = (Zpos (XI (XI (XI (XI (XI (XO (XO (XI (XO (XI (XI (XO (XO
+        (XO (XO (XI XH))))))))))))))))); qden = (XO (XO (XI (XO (XO (XI
+        XH)))))) }
+        (nth (S (S (S (S (S (S (S (S (S (S (S O))))))))))) d VNull)))
+    (fits_text (S O) (S (S O))
+      (nth (S (S (S (S (S (S (S (S (S (S (S (S O)))))))))))) d VNull))
+
+(** val decimal_value : string -> (q * nat) option **)
+
+let decimal_value s0 =
+  let s = trim s0 in
+  let (neg, body) = split_sign s in
+  let (ip, fp) = split_dot body in
+  let fpart = match fp with
+              | Some f -> f
+              | None -> EmptyString in
+  if (&&) ((&&) (all_digits ip) (all_digits fpart)) (str_nonempty ip)
+  then let q0 = { qnum = (digits_val Z0 (append ip fpart)); qden =
+         (Z.to_pos (pow10 (length0 fpart))) }
+       in
+       Some ((if neg then qopp q0 else q0), (length0 fpart))
+  else None
+
+(** val int_digits : q -> nat **)
+
+let int_digits q0 =
+  length0 (digits (qfloor (qabs q0)))
+
+(** val max_fit : q -> nat **)
+
+let max_fit q0 =
+  Nat.min (S (S (S O)))
+    (sub
+      (sub (S (S (S (S (S (S (S (S O))))))))
+        (add (int_digits q0)
+          (if qltb q0 { qnum = Z0; qden = XH } then S O else O))) (S O))
+
+(** val near_power_of_ten : q -> bool **)
+
+let near_power_of_ten q0 =
+  let a = qabs q0 in
+  existsb (fun k ->
+    (&&)
+      (qleb
+        (qminus (inject_Z (Z.pow (Zpos (XO (XI (XO XH)))) k)) { qnum = (Zpos
+          XH); qden = (XO XH) }) a)
+      (qltb a (inject_Z (Z.pow (Zpos (XO (XI (XO XH)))) k)))) ((Zpos (XI
+    XH)) :: ((Zpos (XO (XO XH))) :: ((Zpos (XI (XO XH))) :: ((Zpos (XO (XI
+    XH))) :: ((Zpos (XI (XI XH))) :: ((Zpos (XO (XO (XO XH)))) :: []))))))
+
+(** val coord_ok : val0 -> string -> bool **)
+
+let coord_ok v0 field =
+  match real_of v0 with
+  | Some q0 ->
+    (match decimal_value field with
+     | Some p ->
+       let (r, k) = p in
+       (&&)
+         ((&&) (Nat.eqb (length0 field) (S (S (S (S (S (S (S (S O)))))))))
+           (qleb (qabs (qminus r q0))
+             (qdiv { qnum = (Zpos XH); qden = (XO XH) } (inject_Z (pow10 k)))))
+         (if (&&)
+               (qltb
+                 (qopp { qnum = (Zpos (XI (XI (XO (XI (XO (XO (XO (XO (XI (XI
+                   (XI (XO (XO XH)))))))))))))); qden = (XO (XI (XO XH))) })
+                 q0)
+               (qltb q0 { qnum = (Zpos (XI (XI (XO (XI (XI (XO (XO (XI (XO
+                 (XI (XI (XO (XO (XO (XO (XI XH))))))))))))))))); qden = (XO
+                 (XI (XO XH))) })
+          then Nat.eqb k (S (S (S O)))
+          else (||) (Nat.eqb k (max_fit q0))
+                 ((&&) (near_power_of_ten q0) (Nat.eqb (S k) (max_fit q0))))
+     | None -> false)
+  | None -> false
+
+(** val text_ok : val0 -> string -> bool **)
+
+let text_ok v0 field =
+  match v0 with
+  | VText s -> eqb1 (trim field) s
+  | _ -> false
+
+(** val int_ok : val0 -> string -> bool **)
+
+let int_ok v0 field =
+  match v0 with
+  | VInt z0 ->
+    (match parse_int field with
+     | NumOk z' -> Z.eqb z0 z'
+     | _ -> false)
+  | _ -> false
+
+(** val real2_ok : val0 -> string -> bool **)
+
+let real2_ok v0 field =
+  match real_of v0 with
+  | Some q0 ->
+    (match decimal_value field with
+     | Some p ->
+       let (r, k) = p in
+       (&&) (Nat.eqb k (S (S O)))
+         (qleb (qabs (qminus r q0)) { qnum = (Zpos (XI (XO XH))); qden = (XO
+           (XO (XO (XI (XO (XI (XI (XI (XI XH))))))))) })
+     | None -> false)
+  | None -> false
+
+(** val line_ok : row -> string -> bool **)
+
+let line_ok d line =
+  (&&)
+    ((&&)
+      ((&&)
+        ((&&)
+          ((&&)
+            ((&&)
+              ((&&)
+                ((&&)
+                  ((&&)
+                    ((&&)
+                      ((&&)
+                        ((&&)
+                          ((&&)
+                            ((&&)
+                              (Nat.eqb (length0 line) (S (S (S (S (S (S (S (S
+                                (S (S (S (S (S (S (S (S (S (S (S (S (S (S (S
+                                (S (S (S (S (S (S (S (S (S (S (S (S (S (S (S
+                                (S (S (S (S (S (S (S (S (S (S (S (S (S (S (S
+                                (S (S (S (S (S (S (S (S (S (S (S (S (S (S (S
+                                (S (S (S (S (S (S (S (S (S (S (S (S
+                                O)))))))))))))))))))))))))))))))))))))))))))))))))))))))))))))))))))))))))))))))))
+                              (eqb1
+                                (substring O (S (S (S (S (S (S O)))))) line)
+                                (String ((Ascii (true, false, false, false,
+                                false, false, true, false)), (String ((Ascii
+                                (false, false, true, false, true, false,
+                                true, false)), (String ((Ascii (true, true,
+                                true, true, false, false, true, false)),
+                                (String ((Ascii (true, false, true, true,
+                                false, false, true, false)), (String ((Ascii
+                                (false, false, false, false, false, true,
+                                false, false)), (String ((Ascii (false,
+                                false, false, false, false, true, false,
+                                false)), EmptyString))))))))))))))
+                            (int_ok (nth O d VNull)
+                              (columns (S (S (S (S (S (S (S O))))))) (S (S (S
+                                (S (S (S (S (S (S (S (S O))))))))))) line)))
+                          (text_ok (nth (S O) d VNull)
+                            (columns (S (S (S (S (S (S (S (S (S (S (S (S (S
+                              O))))))))))))) (S (S (S (S (S (S (S (S (S (S (S
+                              (S (S (S (S (S O)))))))))))))))) line)))
+                        (text_ok (nth (S (S O)) d VNull)
+                          (columns (S (S (S (S (S (S (S (S (S (S (S (S (S (S
+                            (S (S (S O))))))))))))))))) (S (S (S (S (S (S (S
+                            (S (S (S (S (S (S (S (S (S (S O)))))))))))))))))
+                            line)))
+                      (text_ok (nth (S (S (S O))) d VNull)
+                        (columns (S (S (S (S (S (S (S (S (S (S (S (S (S (S (S
+                          (S (S (S O)))))))))))))))))) (S (S (S (S (S (S (S
+                          (S (S (S (S (S (S (S (S (S (S (S (S (S
+                          O)))))))))))))))))))) line)))
+                    (text_ok (nth (S (S (S (S O)))) d VNull)
+                      (columns (S (S (S (S (S (S (S (S (S (S (S (S (S (S (S
+                        (S (S (S (S (S (S (S O)))))))))))))))))))))) (S (S (S
+                        (S (S (S (S (S (S (S (S (S (S (S (S (S (S (S (S (S (S
+                        (S O)))))))))))))))))))))) line)))
+                  (int_ok (nth (S (S (S (S (S O))))) d VNull)
+                    (columns (S (S (S (S (S (S (S (S (S (S (S (S (S (S (S (S
+                      (S (S (S (S (S (S (S O))))))))))))))))))))))) (S (S (S
+                      (S (S (S (S (S (S (S (S (S (S (S (S (S (S (S (S (S (S
+                      (S (S (S (S (S O)))))))))))))))))))))))))) line)))
+                (text_ok (nth (S (S (S (S (S (S O)))))) d VNull)
+                  (columns (S (S (S (S (S (S (S (S (S (S (S (S (S (S (S (S (S
+                    (S (S (S (S (S (S (S (S (S (S
+                    O))))))))))))))))))))))))))) (S (S (S (S (S (S (S (S (S
+                    (S (S (S (S (S (S (S (S (S (S (S (S (S (S (S (S (S (S
+                    O))))))))))))))))))))))))))) line)))
+              (coord_ok (nth (S (S (S (S (S (S (S O))))))) d VNull)
+                (columns (S (S (S (S (S (S (S (S (S (S (S (S (S (S (S (S (S
+                  (S (S (S (S (S (S (S (S (S (S (S (S (S (S
+                  O))))))))))))))))))))))))))))))) (S (S (S (S (S (S (S (S (S
+                  (S (S (S (S (S (S (S (S (S (S (S (S (S (S (S (S (S (S (S (S
+                  (S (S (S (S (S (S (S (S (S
+                  O)))))))))))))))))))))))))))))))))))))) line)))
+            (coord_ok (nth (S (S (S (S (S (S (S (S O)))))))) d VNull)
+              (columns (S (S (S (S (S (S (S (S (S (S (S (S (S (S (S (S (S (S
+                (S (S (S (S (S (S (S (S (S (S (S (S (S (S (S (S (S (S (S (S
+                (S O))))))))))))))))))))))))))))))))))))))) (S (S (S (S (S (S
+                (S (S (S (S (S (S (S (S (S (S (S (S (S (S (S (S (S (S (S (S
+                (S (S (S (S (S (S (S (S (S (S (S (S (S (S (S (S (S (S (S (S
+                O)))))))))))))))))))))))))))))))))))))))))))))) line)))
+          (coord_ok (nth (S (S (S (S (S (S (S (S (S O))))))))) d VNull)
+            (columns (S (S (S (S (S (S (S (S (S (S (S (S (S (S (S (S (S (S (S
+              (S (S (S (S (S (S (S (S (S (S (S (S (S (S (S (S (S (S (S (S (S
+              (S (S (S (S (S (S (S
+              O))))))))))))))))))))))))))))))))))))))))))))))) (S (S (S (S (S
+              (S (S (S (S (S (S (S (S (S (S (S (S (S (S (S (S (S (S (S (S (S
+              (S (S (S (S (S (S (S (S (S (S (S (S (S (S (S (S (S (S (S (S (S
+              (S (S (S (S (S (S (S
+              O)))))))))))))))))))))))))))))))))))))))))))))))))))))) line)))
+        (real2_ok (nth (S (S (S (S (S (S (S (S (S (S O)))))))))) d VNull)
+          (columns (S (S (S (S (S (S (S (S (S (S (S (S (S (S (S (S (S (S (S
+            (S (S (S (S (S (S (S (S (S (S (S (S (S (S (S (S (S (S (S (S (S (S
+            (S (S (S (S (S (S (S (S (S (S (S (S (S (S
+            O))))))))))))))))))))))))))))))))))))))))))))))))))))))) (S (S (S
+            (S (S (S (S (S (S (S (S (S (S (S (S (S (S (S (S (S (S (S (S (S (S
+            (S (S (S (S (S (S (S (S (S (S (S (S (S (S (S (S (S (S (S (S (S (S
+            (S (S (S (S (S (S (S (S (S (S (S (S (S
+            O))))))))))))))))))))))))))))))))))))))))))))))))))))))))))))
+            line)))
+      (real2_ok (nth (S (S (S (S (S (S (S (S (S (S (S O))))))))))) d VNull)
+        (columns (S (S (S (S (S (S (S (S (S (S (S (S (S (S (S (S (S (S (S (S
+          (S (S (S (S (S (S (S (S (S (S (S (S (S (S (S (S (S (S (S (S (S (S
+          (S (S (S (S (S (S (S (S (S (S (S (S (S (S (S (S (S (S (S
+          O))))))))))))))))))))))))))))))))))))))))))))))))))))))))))))) (S
+          (S (S (S (S (S (S (S (S (S (S (S (S (S (S (S (S (S (S (S (S (S (S
+          (S (S (S (S (S (S (S (S (S (S (S (S (S (S (S (S (S (S (S (S (S (S
+          (S (S (S (S (S (S (S (S (S (S (S (S (S (S (S (S (S (S (S (S (S
+          O))))))))))))))))))))))))))))))))))))))))))))))))))))))))))))))))))
+          line)))
+    (text_ok (nth (S (S (S (S (S (S (S (S (S (S (S (S O)))))))))))) d VNull)
+      (columns (S (S (S (S (S (S (S (S (S (S (S (S (S (S (S (S (S (S (S (S (S
+        (S (S (S (S (S (S (S (S (S (S (S (S (S (S (S (S (S (S (S (S (S (S (S
+        (S (S (S (S (S (S (S (S (S (S (S (S (S (S (S (S (S (S (S (S (S (S (S
+        (S (S (S (S (S (S (S (S (S (S
+        O)))))))))))))))))))))))))))))))))))))))))))))))))))))))))))))))))))))))))))))
+        (S (S (S (S (S (S (S (S (S (S (S (S (S (S (S (S (S (S (S (S (S (S (S
+        (S (S (S (S (S (S (S (S (S (S (S (S (S (S (S (S (S (S (S (S (S (S (S
+        (S (S (S (S (S (S (S (S (S (S (S (S (S (S (S (S (S (S (S (S (S (S (S
+        (S (S (S (S (S (S (S (S (S
+        O))))))))))))))))))))))))))))))))))))))))))))))))))))))))))))))))))))))))))))))
+        line))
+
+(** val val_eqb : val0 -> val0 -> bool **)
+
+let val_eqb a b =
+  match a with
+  | VInt x -> (match b with
+               | VInt y -> Z.eqb x y
+               | _ -> false)
+  | VReal x -> (match b with
+                | VReal y -> qeqb x y
+                | _ -> false)
+  | VText x -> (match b with
+                | VText y -> eqb1 x y
+                | _ -> false)
+  | _ -> false
+
+(** val slack : q -> q **)
+
+let slack x =
+  qplus
+    (qmult (qabs x) { qnum = (Zpos XH); qden = (XO (XO (XO (XO (XO (XO (XO
+      (XO (XO (XO (XO (XO (XO (XO (XO (XO (XO (XO (XO (XO (XO (XO (XO (XO (XO
+      (XO (XO (XO (XO (XO (XO (XO (XO (XO (XO (XO (XO (XO (XO (XO (XO (XO (XO
+      (XO (XO (XO (XO (XO (XO (XO
+      XH)))))))))))))))))))))))))))))))))))))))))))))))))) }) { qnum = (Zpos
+    XH); qden = (XO (XO (XO (XO (XO (XO (XO (XO (XO (XO (XO (XO (XI (XO (XO
+    (XO (XI (XO (XI (XO (XO (XI (XO (XI (XO (XO (XI (XO (XI (XO (XI (XI (XO
+    (XO (XO (XI (XO (XI (XI XH))))))))))))))))))))))))))))))))))))))) }
+
+(** val within : q -> val0 -> val0 -> bool **)
+
+let within tol a b =
+  match real_of a with
+  | Some x ->
+    (match real_of b with
+     | Some y -> qleb (qabs (qminus x y)) (qplus tol (slack x))
+     | None -> false)
+  | None -> false
+
+(** val coord_tol : val0 -> q **)
+
+let coord_tol v0 =
+  match real_of v0 with
+  | Some q0 ->
+    if (&&)
+         (qltb
+           (qopp { qnum = (Zpos (XI (XI (XO (XI (XO (XO (XO (XO (XI (XI (XI
+             (XO (XO XH)))))))))))))); qden = (XO (XI (XO XH))) }) q0)
+         (qltb q0 { qnum = (Zpos (XI (XI (XO (XI (XI (XO (XO (XI (XO (XI (XI
+           (XO (XO (XO (XO (XI XH))))))))))))))))); qden = (XO (XI (XO
+           XH))) })
+    then { qnum = (Zpos (XI (XO XH))); qden = (XO (XO (XO (XO (XI (XO (XO (XO
+           (XI (XI (XI (XO (XO XH))))))))))))) }
+    else qdiv { qnum = (Zpos XH); qden = (XO XH) }
+           (inject_Z (pow10 (Nat.pred (max_fit q0))))
+  | None -> { qnum = Z0; qden = XH }
+
+(** val approx_row : row -> row -> bool **)
+
+let approx_row d d' =
+  (&&)
+    ((&&)
+      ((&&)
+        (Nat.eqb (length d') (S (S (S (S (S (S (S (S (S (S (S (S (S (S
+          O)))))))))))))))
+        (forallb (fun i -> val_eqb (nth i d VNull) (nth i d' VNull))
+          (O :: ((S O) :: ((S (S O)) :: ((S (S (S O))) :: ((S (S (S (S
+          O)))) :: ((S (S (S (S (S O))))) :: ((S (S (S (S (S (S
+          O)))))) :: ((S (S (S (S (S (S (S (S (S (S (S (S
+          O)))))))))))) :: []))))))))))
+      (forallb (fun i ->
+        within (coord_tol (nth i d VNull)) (nth i d VNull) (nth i d' VNull))
+        ((S (S (S (S (S (S (S O))))))) :: ((S (S (S (S (S (S (S (S
+        O)))))))) :: ((S (S (S (S (S (S (S (S (S O))))))))) :: [])))))
+    (forallb (fun i ->
+      within { qnum = (Zpos (XI (XO XH))); qden = (XO (XO (XO (XI (XO (XI (XI
+        (XI (XI XH))))))))) } (nth i d VNull) (nth i d' VNull)) ((S (S (S (S
+      (S (S (S (S (S (S O)))))))))) :: ((S (S (S (S (S (S (S (S (S (S (S
+      O))))))))))) :: [])))
+
+(** val row_of_V : v -> row **)
+
+let row_of_V v0 =
+  map val_of_V (getL v0)
+
+(** val run_export : string -> v list -> v option **)
+
+let run_export cmd a =
+  if eqb1 cmd (String ((Ascii (true, false, true, false, false, true, true,
+       false)), (String ((Ascii (false, false, false, true, true, true, true,
+       false)), (String ((Ascii (false, false, false, false, true, true,
+       true, false)), (String ((Ascii (true, true, true, true, false, true,
+       true, false)), (String ((Ascii (false, true, false, false, true, true,
+       true, false)), (String ((Ascii (false, false, true, false, true, true,
+       true, false)), (String ((Ascii (false, true, true, true, false, true,
+       false, false)), (String ((Ascii (false, false, true, true, false,
+       true, true, false)), (String ((Ascii (true, false, false, true, false,
+       true, true, false)), (String ((Ascii (false, true, true, true, false,
+       true, true, false)), (String ((Ascii (true, false, true, false, false,
+       true, true, false)), EmptyString))))))))))))))))))))))
+  then Some
+         (vres
+           (bind (line_of_row (row_of_V (nth O a (VZ Z0)))) (fun s -> Ok (VS
+             s))))
+  else if eqb1 cmd (String ((Ascii (true, false, true, false, false, true,
+            true, false)), (String ((Ascii (false, false, false, true, true,
+            true, true, false)), (String ((Ascii (false, false, false, false,
+            true, true, true, false)), (String ((Ascii (true, true, true,
+            true, false, true, true, false)), (String ((Ascii (false, true,
+            false, false, true, true, true, false)), (String ((Ascii (false,
+            false, true, false, true, true, true, false)), (String ((Ascii
+            (false, true, true, true, false, true, false, false)), (String
+            ((Ascii (false, false, false, true, true, true, true, false)),
+            (String ((Ascii (true, false, false, true, true, true, true,
+            false)), (String ((Ascii (false, true, false, true, true, true,
+            true, false)), EmptyString))))))))))))))))))))
+       then Some
+              (vres
+                (bind (format_xyz_src (getQ (nth O a (VZ Z0)))) (fun s -> Ok
+                  (VS s))))
+       else if eqb1 cmd (String ((Ascii (true, false, true, false, false,
+                 true, true, false)), (String ((Ascii (false, false, false,
+                 true, true, true, true, false)), (String ((Ascii (false,
+                 false, false, false, true, true, true, false)), (String
+                 ((Ascii (true, true, true, true, false, true, true, false)),
+                 (String ((Ascii (false, true, false, false, true, true,
+                 true, false)), (String ((Ascii (false, false, true, false,
+                 true, true, true, false)), (String ((Ascii (false, true,
+                 true, true, false, true, false, false)), (String ((Ascii
+                 (true, false, false, false, false, true, true, false)),
+                 (String ((Ascii (false, false, true, false, true, true,
+                 true, false)), (String ((Ascii (true, true, true, true,
+                 false, true, true, false)), (String ((Ascii (true, false,
+                 true, true, false, true, true, false)), (String ((Ascii
+                 (false, true, true, true, false, true, true, false)),
+                 (String ((Ascii (true, false, false, false, false, true,
+                 true, false)), (String ((Ascii (true, false, true, true,
+                 false, true, true, false)), (String ((Ascii (true, false,
+                 true, false, false, true, true, false)),
+                 EmptyString))))))))))))))))))))))))))))))
+            then Some
+                   (vres
+                     (bind
+                       (format_atomname_src (getS (nth O a (VZ Z0)))
+                         (getS (nth (S O) a (VZ Z0)))) (fun s -> Ok (VS s))))
+            else if eqb1 cmd (String ((Ascii (true, true, false, false, true,
+                      true, true, false)), (String ((Ascii (false, false,
+                      false, false, true, true, true, false)), (String
+                      ((Ascii (true, false, true, false, false, true, true,
+                      false)), (String ((Ascii (true, true, false, false,
+                      false, true, true, false)), (String ((Ascii (false,
+                      true, true, true, false, true, false, false)), (String
+                      ((Ascii (true, false, true, false, false, true, true,
+                      false)), (String ((Ascii (false, false, false, true,
+                      true, true, true, false)), (String ((Ascii (false,
+                      false, false, false, true, true, true, false)), (String
+                      ((Ascii (true, true, true, true, false, true, true,
+                      false)), (String ((Ascii (false, true, false, false,
+                      true, true, true, false)), (String ((Ascii (false,
+                      false, true, false, true, true, true, false)), (String
+                      ((Ascii (false, true, true, true, false, true, false,
+                      false)), (String ((Ascii (false, true, true, false,
+                      false, true, true, false)), (String ((Ascii (true,
+                      false, false, true, false, true, true, false)), (String
+                      ((Ascii (false, false, true, false, true, true, true,
+                      false)), (String ((Ascii (true, true, false, false,
+                      true, true, true, false)),
+                      EmptyString))))))))))))))))))))))))))))))))
+                 then Some (vB (fits (row_of_V (nth O a (VZ Z0)))))
+                 else if eqb1 cmd (String ((Ascii (true, true, false, false,
+                           true, true, true, false)), (String ((Ascii (false,
+                           false, false, false, true, true, true, false)),
+                           (String ((Ascii (true, false, true, false, false,
+                           true, true, false)), (String ((Ascii (true, true,
+                           false, false, false, true, true, false)), (String
+                           ((Ascii (false, true, true, true, false, true,
+                           false, false)), (String ((Ascii (true, false,
+                           true, false, false, true, true, false)), (String
+                           ((Ascii (false, false, false, true, true, true,
+                           true, false)), (String ((Ascii (false, false,
+                           false, false, true, true, true, false)), (String
+                           ((Ascii (true, true, true, true, false, true,
+                           true, false)), (String ((Ascii (false, true,
+                           false, false, true, true, true, false)), (String
+                           ((Ascii (false, false, true, false, true, true,
+                           true, false)), (String ((Ascii (false, true, true,
+                           true, false, true, false, false)), (String ((Ascii
+                           (false, false, true, true, false, true, true,
+                           false)), (String ((Ascii (true, false, false,
+                           true, false, true, true, false)), (String ((Ascii
+                           (false, true, true, true, false, true, true,
+                           false)), (String ((Ascii (true, false, true,
+                           false, false, true, true, false)), (String ((Ascii
+                           (true, true, true, true, true, false, true,
+                           false)), (String ((Ascii (true, true, true, true,
+                           false, true, true, false)), (String ((Ascii (true,
+                           true, false, true, false, true, true, false)),
+                           EmptyString))))))))))))))))))))))))))))))))))))))
+                      then Some
+                             (vB
+                               (line_ok (row_of_V (nth O a (VZ Z0)))
+                                 (getS (nth (S O) a (VZ Z0)))))
+                      else if eqb1 cmd (String ((Ascii (true, true, false,
+                                false, true, true, true, false)), (String
+                                ((Ascii (false, false, false, false, true,
+                                true, true, false)), (String ((Ascii (true,
+                                false, true, false, false, true, true,
+                                false)), (String ((Ascii (true, true, false,
+                                false, false, true, true, false)), (String
+                                ((Ascii (false, true, true, true, false,
+                                true, false, false)), (String ((Ascii (true,
+                                false, true, false, false, true, true,
+                                false)), (String ((Ascii (false, false,
+                                false, true, true, true, true, false)),
+                                (String ((Ascii (false, false, false, false,
+                                true, true, true, false)), (String ((Ascii
+                                (true, true, true, true, false, true, true,
+                                false)), (String ((Ascii (false, true, false,
+                                false, true, true, true, false)), (String
+                                ((Ascii (false, false, true, false, true,
+                                true, true, false)), (String ((Ascii (false,
+                                true, true, true, false, true, false,
+                                false)), (String ((Ascii (true, true, false,
+                                false, false, true, true, false)), (String
+                                ((Ascii (true, true, true, true, false, true,
+                                true, false)), (String ((Ascii (true, true,
+                                true, true, false, true, true, false)),
+                                (String ((Ascii (false, true, false, false,
+                                true, true, true, false)), (String ((Ascii
+                                (false, false, true, false, false, true,
+                                true, false)), (String ((Ascii (true, true,
+                                true, true, true, false, true, false)),
+                                (String ((Ascii (true, true, true, true,
+                                false, true, true, false)), (String ((Ascii
+                                (true, true, false, true, false, true, true,
+                                false)),
+                                EmptyString))))))))))))))))))))))))))))))))))))))))
+                           then Some
+                                  (vB
+                                    (coord_ok (VReal
+                                      (getQ (nth O a (VZ Z0))))
+                                      (getS (nth (S O) a (VZ Z0)))))
+                           else if eqb1 cmd (String ((Ascii (true, true,
+                                     false, false, true, true, true, false)),
+                                     (String ((Ascii (false, false, false,
+                                     false, true, true, true, false)),
+                                     (String ((Ascii (true, false, true,
+                                     false, false, true, true, false)),
+                                     (String ((Ascii (true, true, false,
+                                     false, false, true, true, false)),
+                                     (String ((Ascii (false, true, true,
+                                     true, false, true, false, false)),
+                                     (String ((Ascii (true, false, true,
+                                     false, false, true, true, false)),
+                                     (String ((Ascii (false, false, false,
+                                     true, true, true, true, false)), (String
+                                     ((Ascii (false, false, false, false,
+                                     true, true, true, false)), (String
+                                     ((Ascii (true, true, true, true, false,
+                                     true, true, false)), (String ((Ascii
+                                     (false, true, false, false, true, true,
+                                     true, false)), (String ((Ascii (false,
+                                     false, true, false, true, true, true,
+                                     false)), (String ((Ascii (false, true,
+                                     true, true, false, true, false, false)),
+                                     (String ((Ascii (true, true, false,
+                                     false, false, true, true, false)),
+                                     (String ((Ascii (true, true, true, true,
+                                     false, true, true, false)), (String
+                                     ((Ascii (true, true, true, true, false,
+                                     true, true, false)), (String ((Ascii
+                                     (false, true, false, false, true, true,
+                                     true, false)), (String ((Ascii (false,
+                                     false, true, false, false, true, true,
+                                     false)), (String ((Ascii (true, true,
+                                     true, true, true, false, true, false)),
+                                     (String ((Ascii (true, false, false,
+                                     true, false, true, true, false)),
+                                     (String ((Ascii (false, true, true,
+                                     true, false, true, true, false)),
+                                     (String ((Ascii (true, true, true, true,
+                                     true, false, true, false)), (String
+                                     ((Ascii (false, true, false, false,
+                                     true, true, true, false)), (String
+                                     ((Ascii (true, false, false, false,
+                                     false, true, true, false)), (String
+                                     ((Ascii (false, true, true, true, false,
+                                     true, true, false)), (String ((Ascii
+                                     (true, true, true, false, false, true,
+                                     true, false)), (String ((Ascii (true,
+                                     false, true, false, false, true, true,
+                                     false)),
+                                     EmptyString))))))))))))))))))))))))))))))))))))))))))))))))))))
+                                then Some
+                                       (vB
+                                         (coord_in_range (VReal
+                                           (getQ (nth O a (VZ Z0))))))
+                                else if eqb1 cmd (String ((Ascii (true, true,
+                                          false, false, true, true, true,
+                                          false)), (String ((Ascii (false,
+                                          false, false, false, true, true,
+                                          true, false)), (String ((Ascii
+                                          (true, false, true, false, false,
+                                          true, true, false)), (String
+                                          ((Ascii (true, true, false, false,
+                                          false, true, true, false)), (String
+                                          ((Ascii (false, true, true, true,
+                                          false, true, false, false)),
+                                          (String ((Ascii (true, false, true,
+                                          false, false, true, true, false)),
+                                          (String ((Ascii (false, false,
+                                          false, true, true, true, true,
+                                          false)), (String ((Ascii (false,
+                                          false, false, false, true, true,
+                                          true, false)), (String ((Ascii
+                                          (true, true, true, true, false,
+                                          true, true, false)), (String
+                                          ((Ascii (false, true, false, false,
+                                          true, true, true, false)), (String
+                                          ((Ascii (false, false, true, false,
+                                          true, true, true, false)), (String
+                                          ((Ascii (false, true, true, true,
+                                          false, true, false, false)),
+                                          (String ((Ascii (true, false,
+                                          false, false, false, true, true,
+                                          false)), (String ((Ascii (false,
+                                          false, false, false, true, true,
+                                          true, false)), (String ((Ascii
+                                          (false, false, false, false, true,
+                                          true, true, false)), (String
+                                          ((Ascii (false, true, false, false,
+                                          true, true, true, false)), (String
+                                          ((Ascii (true, true, true, true,
+                                          false, true, true, false)), (String
+                                          ((Ascii (false, false, false, true,
+                                          true, true, true, false)), (String
+                                          ((Ascii (true, true, true, true,
+                                          true, false, true, false)), (String
+                                          ((Ascii (false, true, false, false,
+                                          true, true, true, false)), (String
+                                          ((Ascii (true, true, true, true,
+                                          false, true, true, false)), (String
+                                          ((Ascii (true, true, true, false,
+                                          true, true, true, false)),
+                                          EmptyString))))))))))))))))))))))))))))))))))))))))))))
+                                     then Some
+                                            (vB
+                                              (approx_row
+                                                (row_of_V (nth O a (VZ Z0)))
+                                                (row_of_V
+                                                  (nth (S O) a (VZ Z0)))))
+                                     else None
+
 (** val vresS : string res -> v **)
 
 let vresS = function
@@ -3177,25 +4431,29 @@ let run = function
            (match run_parse cmd args with
             | Some r -> r
             | None ->
-              vErr (String ((Ascii (true, false, true, false, true, true,
-                true, false)), (String ((Ascii (false, true, true, true,
-                false, true, true, false)), (String ((Ascii (true, true,
-                false, true, false, true, true, false)), (String ((Ascii
-                (false, true, true, true, false, true, true, false)), (String
-                ((Ascii (true, true, true, true, false, true, true, false)),
-                (String ((Ascii (true, true, true, false, true, true, true,
-                false)), (String ((Ascii (false, true, true, true, false,
-                true, true, false)), (String ((Ascii (true, false, true,
-                true, false, true, false, false)), (String ((Ascii (true,
-                true, false, false, false, true, true, false)), (String
-                ((Ascii (true, true, true, true, false, true, true, false)),
-                (String ((Ascii (true, false, true, true, false, true, true,
-                false)), (String ((Ascii (true, false, true, true, false,
-                true, true, false)), (String ((Ascii (true, false, false,
-                false, false, true, true, false)), (String ((Ascii (false,
-                true, true, true, false, true, true, false)), (String ((Ascii
-                (false, false, true, false, false, true, true, false)),
-                EmptyString))))))))))))))))))))))))))))))))
+              (match run_export cmd args with
+               | Some r -> r
+               | None ->
+                 vErr (String ((Ascii (true, false, true, false, true, true,
+                   true, false)), (String ((Ascii (false, true, true, true,
+                   false, true, true, false)), (String ((Ascii (true, true,
+                   false, true, false, true, true, false)), (String ((Ascii
+                   (false, true, true, true, false, true, true, false)),
+                   (String ((Ascii (true, true, true, true, false, true,
+                   true, false)), (String ((Ascii (true, true, true, false,
+                   true, true, true, false)), (String ((Ascii (false, true,
+                   true, true, false, true, true, false)), (String ((Ascii
+                   (true, false, true, true, false, true, false, false)),
+                   (String ((Ascii (true, true, false, false, false, true,
+                   true, false)), (String ((Ascii (true, true, true, true,
+                   false, true, true, false)), (String ((Ascii (true, false,
+                   true, true, false, true, true, false)), (String ((Ascii
+                   (true, false, true, true, false, true, true, false)),
+                   (String ((Ascii (true, false, false, false, false, true,
+                   true, false)), (String ((Ascii (false, true, true, true,
+                   false, true, true, false)), (String ((Ascii (false, false,
+                   true, false, false, true, true, false)),
+                   EmptyString)))))))))))))))))))))))))))))))))
       | _ ->
         vErr (String ((Ascii (false, true, false, false, false, true, true,
           false)), (String ((Ascii (true, false, false, false, false, true,
